@@ -102,6 +102,26 @@ def one_row(case, r):
 def check_outputs(ctx, report, case, impl, label, clause_prefix=None, report_case=None):
     """spec on the implementation's output of disparity_checking(A, B); returns the number of failing pixels.
     `report_case`: the case to record for a replay when `case` was derived from it (validation_run)."""
+    # "The step itself does not modify any disparity": judged first, cell by cell, on the raw output — an infinite value
+    # written over a NaN (seed C07-5) is not even expressible in the model's cells
+    for name in ("disp_a", "disp_b"):
+        # the generators never produce infinite disparities: one found in a map that enters the check (second half of
+        # validation_run) was written by the first half
+        bad = [(r, c, v) for r, row in enumerate(case[name]) for c, v in enumerate(row) if v in ("inf", "-inf")]
+        if bad:
+            report.hit("disp_unchanged")
+            report.fail((clause_prefix + ":" if clause_prefix else "") + "disp_unchanged", "nonfinite_value_written",
+                        report_case or case, {"map": name, "pixel": list(bad[0][:2]), "after": bad[0][2]},
+                        "a disparity map holds an infinite value after a cross-checking pass that must not modify any disparity")
+            return 1
+    for r, (row_in, row_out) in enumerate(zip(case["disp_a"], impl["disp"])):
+        for c, (x, y) in enumerate(zip(row_in, row_out)):
+            if y in ("inf", "-inf") and x != y:
+                report.hit("disp_unchanged")
+                report.fail((clause_prefix + ":" if clause_prefix else "") + "disp_unchanged", "nonfinite_value_written",
+                            report_case or case, {"pixel": [r, c], "before": x, "after": y},
+                            "the disparity map handed to the cross-checking holds another value after the step")
+                return 1
     spec = ctx.lean.call("C07.spec", **model_payload(case), out_mask=impl["mask"], out_conf=impl["conf"], out_disp=impl["disp"])
     for k, v in spec["situations"].items():
         report.count("situation_" + k, v)
@@ -386,7 +406,15 @@ def random_run_case(rng):
 
 
 def grid_exact(a):
-    return [[wire(Fraction(float(v))) if v == v else "nan" for v in row] for row in a]
+    def cell(v):
+        v = float(v)
+        if v != v:
+            return "nan"
+        if v in (float("inf"), float("-inf")):
+            return "inf" if v > 0 else "-inf"
+        return wire(Fraction(v))
+
+    return [[cell(v) for v in row] for row in a]
 
 
 def case_of_record(rec):
